@@ -161,3 +161,6 @@ func vPoolDeterministic() {
 // vShare marks everything reachable from root as shared (effect monitor on); natively a no-op.
 func vShare(root any) {}
 func vUnshare()       {}
+
+// vGuard declares that *field is protected by *mutex (lockset monitor of the engine); natively a no-op.
+func vGuard(field any, mutex any) {}
